@@ -482,7 +482,7 @@ def run(tier, seed, replay=None):
                 "re-exports; 0-3 import statements per module over 12 forms (import, import as, from pkg import submodule, from mod import name, from pkg import re-exported name, "
                 "relative sibling / parent by dots, stdlib) x 16 placements (top level, function, nested function, try/else/except/finally, if/else, class body, with, for, "
                 "TYPE_CHECKING, typing.TYPE_CHECKING, else of TYPE_CHECKING); non-trivial = module with at least one required edge",
-        "samples": [],
+        "samples": [{"module": A, "imports": [stmt_text(s) + " @" + s["wrap"] for s in d["stmts"]]} for A, d in list(layouts[0].mods.items())[:4]] if layouts else [],
         "traces_validated_against_impl": hist["cpython_checked_modules"],
         "distribution": hist,
     })
